@@ -17,7 +17,7 @@ _OPEN = re.compile(r'openat\([^,]+, "([^"]+\.bitcask\.(?:data|hint))", ([A-Z_|]+
 _WRITE = re.compile(r'(?:write|pwrite64)\((\d+),.*\)\s+= (\d+)')
 _SYNC = re.compile(r'(?:fsync|fdatasync)\((\d+)\)\s+= 0')
 _CLOSE = re.compile(r'close\((\d+)\)\s+= 0')
-_UNLINK = re.compile(r'unlink(?:at)?\((?:[^,"]+, )?"([^"]+\.bitcask\.(?:data|hint))"')
+_UNLINK = re.compile(r'unlink(?:at)?\((?:[^,"]+, )?"([^"]+\.bitcask\.(?:data|hint))"[^)]*\)\s+= 0')
 
 
 def analyse(trace):
@@ -48,9 +48,14 @@ def analyse(trace):
         m = _UNLINK.search(line)
         if m:
             victim = m.group(1)
-            bad = {os.path.basename(p): n for p, n in dirty.items() if n > 0 and p != victim and os.path.exists(os.path.dirname(p)) or (n > 0 and p != victim)}
+            bad = {os.path.basename(p): n for p, n in dirty.items() if n > 0 and p != victim}
             if bad:
                 return {"unlinked": os.path.basename(victim), "unsynced": bad}
+            dirty.pop(victim, None)
+    left = {os.path.basename(p): n for p, n in dirty.items() if n > 0}
+    if left:
+        # every operation of the history has returned by the time the process exits
+        return {"unlinked": None, "unsynced": left}
     return None
 
 
@@ -77,6 +82,11 @@ def search(binary):
                 w["scenario"] = "store-history"
                 return w
         bad = analyse(trace)
+        if bad and bad["unlinked"] is None:
+            return {"found": True, "scenario": "durability", "kind": "acknowledged-but-unsynced", "props": "C09",
+                    "history": "sync=always, max_file_size=%d, merge selects %s: %s" % (max_size, mode, ops),
+                    "observed": "at the end of the history (every operation acknowledged) bytes written since the last fsync: %s" % bad["unsynced"],
+                    "expected": "with sync=always nothing an acknowledged operation wrote is left unsynced"}
         if bad:
             return {"found": True, "scenario": "durability", "kind": "unlink-before-fsync", "props": "C09",
                     "history": "sync=always, max_file_size=%d, merge selects %s: %s" % (max_size, mode, ops),
